@@ -211,6 +211,47 @@ def evalRC (a : AEnv) : RC → Option Bool
   | .decl v ty k => evalRC { a with vars := (v, ty) :: a.vars } k
   | _ => none
 
+/-! ### round 5: what travels down the path (typed forwarding terms `Fwd`) -/
+
+/-- the values the hops of the path hand on: the caller's context `c` (wrapping it in a span keeps its Done /
+Err / values: still `c`), the background context, the caller's body `f` (as given, or adapted from
+`func(Session) error` by a literal that drops the context and passes the session on), and the connection's parts -/
+inductive V
+  | ctx (c : Nat)
+  | bgCtx
+  | body (f : Nat) (ctxless : Bool)
+  | conn | beginFn | acceptFn | db | thunk | tx
+  | unknown
+  deriving DecidableEq, Repr
+
+/-- meaning of one forwarded argument, given the values of the enclosing function's parameters -/
+def evalArg (actuals : List V) : Arg → V
+  | .param i => actuals.getD i .unknown
+  | .rebound i rhs =>
+    -- the only re-binding the path knows: ctx, span := startSpan(ctx, …) — a child of the same context
+    match actuals.getD i .unknown with
+    | .ctx c => if rhs.startsWith "startSpan(ctx, " then .ctx c else .unknown
+    | .bgCtx => if rhs.startsWith "startSpan(ctx, " then .bgCtx else .unknown
+    | _ => .unknown
+  | .bg => .bgCtx
+  | .recvField "db.beginTx" => .beginFn
+  | .recvField "db.acceptable" => .acceptFn
+  | .recvField _ => .unknown
+  | .recv => .db
+  | .local "conn" => .conn
+  | .local "tx" => .tx
+  | .local _ => .unknown
+  | .adapt 2 k [1] =>
+    -- func(_ context.Context, session Session) error { return fn(session) }: the caller's ctx-less body
+    match actuals.getD k .unknown with
+    | .body f false => .body f true
+    | _ => .unknown
+  | .adapt _ _ _ => .unknown
+  | .thunk => .thunk
+  | .other _ => .unknown
+
+def evalFwd (h : Fwd) (actuals : List V) : List V := h.args.map (evalArg actuals)
+
 /-- `transactOnConn` as pinned when this check was built (completion of the body is inferred from
 `recover() != nil` alone) -/
 def pinnedBlk : Blk :=
